@@ -150,29 +150,46 @@ package fiber
 // ---------------------------------------------------------------------------------------------
 
 //@ fn noSlash(s string) bool = forall(k, 0, len(s), s[k] != '/')
-// pcount(p, s): number of parameter segments among the first s segments of parser p (the slot of
-// segment s in the parameter array). Its defining recurrence is part of the parser's well-formedness.
-//@ fn pcount(p ref, s int) int
+// pcount(segs, s): number of parameter segments among the first s segments of the segment list segs (the slot of
+// segment s in the parameter array). pcountK(key, .) is an uninterpreted sequence; pcountDefK(key, segs) says that it is the
+// prefix count of the IsParam flags of segs in the current state (for every state and list there is exactly one such
+// sequence). Facts about the count are proved for EVERY key whose sequence is the prefix count of the list (loop invariant
+// of parseRoute); the key used for a list is segsKey(list) - any function of the slice value would do, so that a parser
+// copied by value keeps its count.
+//@ fn segsKey(segs slice) int
+//@ fn pcountK(key int, s int) int
+//@ macro pcount(segs, s) = pcountK(segsKey(segs), s)
 //@ fn checkOK(c ref, v string, ep int) bool
+//@ macro pcountDefK(key, segs) = (pcountK(key, 0) == 0 && forall(sd, 0, len(segs), pcountK(key, sd + 1) == pcountK(key, sd) + ite(segs[sd].IsParam, 1, 0)))
+//@ macro pcountDef(segs) = pcountDefK(segsKey(segs), segs)
+//@ macro pcountMonotoneK(key, n) = forallI(ma, forallI(mb, 0 <= ma && ma <= mb && mb <= n ==> pcountK(key, ma) <= pcountK(key, mb)))
+//@ macro pcountMonotone(segs) = pcountMonotoneK(segsKey(segs), len(segs))
 
-//@ macro wfParser(p) = pcount(p, 0) == 0 &&
-//@ ..  forall(s, 0, len(p.segs), pcount(p, s + 1) == pcount(p, s) + ite(p.segs[s].IsParam, 1, 0)) &&
-//@ ..  forallI(a, forallI(b, 0 <= a && a <= b && b <= len(p.segs) ==> pcount(p, a) <= pcount(p, b))) &&
-//@ ..  pcount(p, len(p.segs)) <= maxParams &&
-//@ ..  forall(s, 0, len(p.segs), p.segs[s] != nil && (!p.segs[s].IsParam ==> p.segs[s].Length == len(p.segs[s].Const) && p.segs[s].Length >= 1) &&
-//@ ..     (p.segs[s].IsParam ==> p.segs[s].Length == 0 || p.segs[s].Length == 1))
+// Well-formedness of a parsed pattern (postcondition of parseRoute, zz_contracts_c03_verif.go; precondition of the matcher).
+//@ macro wfSegs(segs) = pcountDef(segs) && pcountMonotone(segs) && pcount(segs, len(segs)) <= maxParams &&
+//@ ..  forall(s, 0, len(segs), segs[s] != nil && (!segs[s].IsParam ==> segs[s].Length == len(segs[s].Const) && segs[s].Length >= 1) &&
+//@ ..     (segs[s].IsParam ==> segs[s].Length == 0 || segs[s].Length == 1) &&
+//@ ..     (segs[s].IsLast <==> s == len(segs) - 1) &&
+//@ ..     (segs[s].HasOptionalSlash ==> !segs[s].IsParam && segs[s].Const[len(segs[s].Const)-1] == '/')) &&
+//@ ..  comparePartsWF(segs)
+//@ macro wfParser(p) = wfSegs(p.segs)
+// What a parameter searches for to find its end (ComparePart) is the next literal of the pattern without its trailing
+// slashes (a literal of one byte is kept): parameters that follow each other share it, a parameter directly before a
+// literal has that literal's, the last segment has none.
+//@ macro comparePartsWF(segs) = forall(cs, 0, len(segs) - 1, segs[cs].IsParam ==>
+//@ ..     (segs[cs+1].IsParam ==> segs[cs].ComparePart == segs[cs+1].ComparePart) &&
+//@ ..     (!segs[cs+1].IsParam ==> trimmedOrSame(segs[cs+1].Const, segs[cs].ComparePart))) &&
+//@ ..  (len(segs) > 0 && segs[len(segs)-1].IsParam ==> segs[len(segs)-1].ComparePart == "")
 
 // What the property demands of the value v captured for parameter segment seg.
-//@ macro valueOK(seg, v) = (!seg.IsOptional ==> len(v) > 0) && (!seg.IsGreedy && seg.IsLast ==> noSlash(v)) &&
-//@ ..  (len(v) > 0 ==> forall(j, 0, len(seg.Constraints), checkOK(seg.Constraints[j], v, epoch)))
+//@ macro valueOKat(seg, v, ep) = (!seg.IsOptional ==> len(v) > 0) && (!seg.IsGreedy && seg.IsLast ==> noSlash(v)) &&
+//@ ..  (len(v) > 0 ==> forall(j, 0, len(seg.Constraints), checkOK(seg.Constraints[j], v, ep)))
+//@ macro valueOK(seg, v) = valueOKat(seg, v, epoch)
 
 // The detection path is the request path with configured case folding applied (and trailing slashes removed).
 //@ macro foldPrefix(dp, p) = len(dp) <= len(p) && forall(k, 0, len(dp), dp[k] == p[k] || dp[k] == lowerb(p[k]))
 
-// CheckConstraint is a deterministic function of the constraint and the value (custom constraints and the
-// regular-expression engine are user/third-party code: assumed pure).
-//@ func (*Constraint).CheckConstraint assumed pure
-//@   defines result == checkOK(c, param, epoch)
+// (*Constraint).CheckConstraint: zz_contracts_c02_verif.go (checked against its body; checkOK names its result).
 
 //@ func findParamLenForLastSegment
 //@   props C02 C07
@@ -198,6 +215,33 @@ package fiber
 //@   ensures in-range: 0 <= result && result <= len(s)
 //@   ensures named-no-slash: !segment.IsGreedy && (segment.IsLast || result < len(s)) ==> noSlash(s[:result])
 //@   ensures named-no-slash-in-folded-path: forallS(p, foldPrefix(s, p) && !segment.IsGreedy && (segment.IsLast || result < len(s)) ==> noSlash(p[:result]))
+// a named value with a slash in it is the whole rest of the string, taken because the literal searched for (not "/", not
+// empty) does not occur in it - getMatch then fails at that literal (see its invariant named-slash-is-pending-failure)
+//@   ensures slash-only-when-delimiter-missing: !segment.IsGreedy && !noSlash(s[:result]) ==> result == len(s) && segment.ComparePart != "" && segment.ComparePart != "/"
+//@   ensures slash-only-when-delimiter-missing-in-folded-path: forallS(p, foldPrefix(s, p) && !segment.IsGreedy && !noSlash(p[:result]) ==> result == len(s) && segment.ComparePart != "" && segment.ComparePart != "/")
+
+// v is a piece of the request path p
+// (stated as "a prefix of a suffix of p": the suffix p[fa:] is a term with the one bound variable, which the solvers can match)
+//@ fn fromPath(v string, p string) bool = exists(fa, 0, len(p) + 1, len(v) <= len(p) - fa && p[fa:][:len(v)] == v)
+// the part of the detection path (and of the path) that getMatch has not consumed yet is a suffix of what it was given
+//@ macro consumed(dp0, dp) = (len(dp0) - len(dp))
+//@ macro suffixes(dp0, p0, dp, p) = (len(dp) <= len(dp0) && dp == dp0[consumed(dp0, dp):] && p == p0[consumed(dp0, dp):])
+
+// Tiling. toffK(key, s) is an uninterpreted sequence of offsets; tileDefK says that it is THE sequence of tile boundaries
+// for the segment list, the captured values and a detection path of length n0: it starts at 0 and every segment adds the
+// length of its tile - the length of the captured value for a parameter, the length of the literal for a literal, one
+// less when the literal's optional trailing slash is what is missing at the end of the path. For given segments, values
+// and n0 there is exactly one such sequence on [0, n]; the tiling clauses hold for EVERY key whose sequence it is (no
+// assumption about toffK is made anywhere).
+//@ fn toffK(key int, s int) int
+//@ macro tlen(key, segs, params, n0, s) = ite(segs[s].IsParam, len(params[pcount(segs, s)]),
+//@ ..   ite(segs[s].HasOptionalSlash && toffK(key, s) + segs[s].Length - 1 == n0, segs[s].Length - 1, segs[s].Length))
+//@ macro tileDefK(key, segs, params, n0, n) = (toffK(key, 0) == 0 && forall(ts, 0, n, toffK(key, ts + 1) == toffK(key, ts) + tlen(key, segs, params, n0, ts)))
+// tile s lies inside the detection path dp0; a literal tile is the literal (without its last byte when that is the
+// optional slash), a parameter tile is where the captured value was taken from the path p0
+//@ macro tileOK(key, segs, params, dp0, p0, s) = (0 <= toffK(key, s) && toffK(key, s) <= toffK(key, s + 1) && toffK(key, s + 1) <= len(dp0) &&
+//@ ..   (segs[s].IsParam ==> params[pcount(segs, s)] == p0[toffK(key, s):toffK(key, s + 1)]) &&
+//@ ..   (!segs[s].IsParam ==> dp0[toffK(key, s):toffK(key, s + 1)] == segs[s].Const[:toffK(key, s + 1) - toffK(key, s)]))
 
 // parserMatches: the answer of getMatch (a deterministic function of the parser and the paths).
 //@ fn parserMatches(p ref, dp string, path string, partial bool, ep int) bool
@@ -209,14 +253,34 @@ package fiber
 //@   modifies elems(params)
 //@   atcall (*Constraint).CheckConstraint: on-captured-value: param == path[:i]
 //@   loop 1
-//@     invariant slot: paramsIterator == pcount(parser, rangeindex + 1)
+//@     invariant slot: paramsIterator == pcount(parser.segs, rangeindex + 1)
 //@     invariant seg-index: rangeindex + 1 <= len(parser.segs)
 //@     invariant dp-folds-path: foldPrefix(detectionPath, path)
-//@     invariant values-ok: forall(s, 0, rangeindex + 1, parser.segs[s].IsParam ==> valueOK(parser.segs[s], params[pcount(parser, s)]))
+//@     invariant values-ok: forall(s, 0, rangeindex + 1, parser.segs[s].IsParam ==> valueOK(parser.segs[s], params[pcount(parser.segs, s)]))
+// A named value that contains a slash can only be the whole rest of the path, taken because the literal the parameter
+// searches for (neither empty nor "/") does not occur: nothing is left, only parameters have followed since, they search
+// for the same literal, and the match fails when that literal is reached (it is not "/", so it does not match the empty
+// rest) - or, when no literal follows, the last parameter would search for nothing, which contradicts "not empty".
+//@     invariant named-slash-is-pending-failure: forall(s, 0, rangeindex + 1, parser.segs[s].IsParam && !parser.segs[s].IsGreedy && !noSlash(params[pcount(parser.segs, s)]) ==>
+//@ ..      detectionPath == "" && parser.segs[rangeindex].IsParam && parser.segs[rangeindex].ComparePart != "" && parser.segs[rangeindex].ComparePart != "/")
+//@     invariant rest-is-a-suffix: suffixes(old(detectionPath), old(path), detectionPath, path)
+//@     invariant slots-from-this-path: forall(k, 0, paramsIterator, fromPath(params[k], old(path)))
+//@     invariant tiled-so-far: forallI(key, tileDefK(key, parser.segs, params, len(old(detectionPath)), rangeindex + 1) ==>
+//@ ..      toffK(key, rangeindex + 1) == consumed(old(detectionPath), detectionPath) &&
+//@ ..      forall(s, 0, rangeindex + 1, tileOK(key, parser.segs, params, old(detectionPath), old(path), s)))
 //@   loop 2
 //@     invariant checked-so-far: forall(j, 0, rangeindex + 1, checkOK(segment.Constraints[j], params[paramsIterator], epoch))
-//@   ensures values-ok: result ==> forall(s, 0, len(parser.segs), parser.segs[s].IsParam ==> valueOK(parser.segs[s], params[pcount(parser, s)]))
+//@   ensures values-ok: result ==> forall(s, 0, len(parser.segs), parser.segs[s].IsParam ==> valueOK(parser.segs[s], params[pcount(parser.segs, s)]))
+//@   ensures named-values-have-no-slash: result ==> forall(s, 0, len(parser.segs), parser.segs[s].IsParam && !parser.segs[s].IsGreedy ==> noSlash(params[pcount(parser.segs, s)]))
+// every slot that belongs to a parameter of the pattern was written by THIS call, with a piece of THIS path
+//@   ensures [C02 C05] slots-from-this-path: result ==> forall(k, 0, pcount(parser.segs, len(parser.segs)), fromPath(params[k], path))
 
+//@   ensures tiling: result ==> forallI(key, tileDefK(key, parser.segs, params, len(detectionPath), len(parser.segs)) ==>
+//@ ..      forall(s, 0, len(parser.segs), tileOK(key, parser.segs, params, detectionPath, path, s)) &&
+//@ ..      (partialCheck || toffK(key, len(parser.segs)) == len(detectionPath)))
+
+//@ macro rootShortcut(r, dp) = (r.root && len(dp) == 1 && dp[0] == '/')
+//@ macro parserDecides(r, res, dp) = (res && len(r.Params) > 0 && !r.star && !rootShortcut(r, dp))
 // matches(r, dp, p, ep): the answer of Route.match, a deterministic function of the route and the two paths.
 //@ fn matches(r ref, dp string, p string, ep int) bool
 //@ func (*Route).match
@@ -227,7 +291,17 @@ package fiber
 //@   modifies elems(params)
 //@   ensures params-imply-parser: result && len(r.Params) > 0 && !r.star && !(r.root && len(detectionPath) == 1 && detectionPath[0] == '/') ==> parserMatches(r.routeParser, detectionPath, path, r.use, epoch)
 //@   ensures values-ok: result && len(r.Params) > 0 && !r.star && !(r.root && len(detectionPath) == 1 && detectionPath[0] == '/') ==>
-//@ ..   forall(s, 0, len(r.routeParser.segs), r.routeParser.segs[s].IsParam ==> valueOK(r.routeParser.segs[s], params[pcount(r.routeParser, s)]))
+//@ ..   forall(s, 0, len(r.routeParser.segs), r.routeParser.segs[s].IsParam ==> valueOK(r.routeParser.segs[s], params[pcount(r.routeParser.segs, s)]))
+//@   ensures [C02] named-values-have-no-slash: parserDecides(r, result, detectionPath) ==> forall(s, 0, len(r.routeParser.segs), r.routeParser.segs[s].IsParam && !r.routeParser.segs[s].IsGreedy ==> noSlash(params[pcount(r.routeParser.segs, s)]))
+//@   ensures [C02 C05] slots-from-this-path: parserDecides(r, result, detectionPath) ==> forall(k, 0, pcount(r.routeParser.segs, len(r.routeParser.segs)), fromPath(params[k], path))
+//@   ensures [C02] tiling: parserDecides(r, result, detectionPath) ==> forallI(key, tileDefK(key, r.routeParser.segs, params, len(detectionPath), len(r.routeParser.segs)) ==>
+//@ ..      forall(s, 0, len(r.routeParser.segs), tileOK(key, r.routeParser.segs, params, detectionPath, path, s)) &&
+//@ ..      (r.use || toffK(key, len(r.routeParser.segs)) == len(detectionPath)))
+// the "/*" shortcut: the value of the wildcard is the path without its first byte
+//@   ensures [C02 C05] star-value: result && r.star && !rootShortcut(r, detectionPath) ==> params[0] == ite(len(path) > 1, path[1:], "")
+// a pattern without parameters is compared as text: the whole detection path for an endpoint, a prefix for middleware
+//@   ensures [C02] literal-route: result && len(r.Params) == 0 && !r.star && !rootShortcut(r, detectionPath) ==>
+//@ ..      ite(r.use, ite(r.root, detectionPath[0] == '/', len(detectionPath) >= len(r.path) && detectionPath[:len(r.path)] == r.path), detectionPath == r.path)
 
 // ---------------------------------------------------------------------------------------------
 // C01: dispatch = first match in registration order; the scan resumes where it stopped
@@ -263,6 +337,20 @@ package fiber
 //@ ..    old(c.indexRoute) < c.indexRoute && forall(k, old(c.indexRoute) + 1, c.indexRoute, tree[k].mount || !matches(tree[k], old(dpOf(c)), old(pathOf(c)), epoch))
 //@   atcall Route.Handlers$elem: context-points-at-route: c.route == route && c.indexHandler == 0 && as(arg0, *DefaultCtx) == c
 //@   atcall Route.Handlers$elem: matched-flag: c.matched == (old(c.matched) || !route.use)
+// C02 at the point where the handler starts: the values the handler reads through Params (c.values) are the ones this
+// route's parser captured from this request's path - every one checked against the constraints of its parameter, every
+// slot of a parameter a piece of the path, literals and values tiling the detection path
+//@   atcall Route.Handlers$elem: [C02] values-checked: len(route.Params) > 0 && !route.star && !rootShortcut(route, dpOf(c)) ==>
+//@ ..    forall(s, 0, len(route.routeParser.segs), route.routeParser.segs[s].IsParam ==> valueOKat(route.routeParser.segs[s], c.values[pcount(route.routeParser.segs, s)], epochNow))
+//@   atcall Route.Handlers$elem: [C02] named-values-have-no-slash: len(route.Params) > 0 && !route.star && !rootShortcut(route, dpOf(c)) ==>
+//@ ..    forall(s, 0, len(route.routeParser.segs), route.routeParser.segs[s].IsParam && !route.routeParser.segs[s].IsGreedy ==> noSlash(c.values[pcount(route.routeParser.segs, s)]))
+//@   atcall Route.Handlers$elem: [C02 C05] slots-from-this-path: len(route.Params) > 0 && !route.star && !rootShortcut(route, dpOf(c)) ==>
+//@ ..    forall(k, 0, pcount(route.routeParser.segs, len(route.routeParser.segs)), fromPath(c.values[k], pathOf(c)))
+//@   atcall Route.Handlers$elem: [C02] tiling: len(route.Params) > 0 && !route.star && !rootShortcut(route, dpOf(c)) ==>
+//@ ..    forallI(key, tileDefK(key, route.routeParser.segs, c.values, len(dpOf(c)), len(route.routeParser.segs)) ==>
+//@ ..      forall(s, 0, len(route.routeParser.segs), tileOK(key, route.routeParser.segs, c.values, dpOf(c), pathOf(c), s)) &&
+//@ ..      (route.use || toffK(key, len(route.routeParser.segs)) == len(dpOf(c))))
+//@   atcall Route.Handlers$elem: [C02 C05] star-value: route.star && !rootShortcut(route, dpOf(c)) ==> c.values[0] == ite(len(pathOf(c)) > 1, pathOf(c)[1:], "")
 //@   ensures no-match-is-an-error: !result0 ==> result1 != nil
 //@   ensures no-handler-no-match: !called(Route.Handlers$elem) ==> !result0
 //@   ensures [C08] error-is-returned-not-handled: !called((*App).ErrorHandler) && ehCalls == old(ehCalls)
@@ -323,6 +411,18 @@ package fiber
 //@ ..    old(ciIdx)[c] < ciIdx[c] && forall(k, old(ciIdx)[c] + 1, ciIdx[c], !matches(tree[k], cdp(c, epoch), cpath(c, epoch), epoch))
 //@   atcall Route.Handlers$elem: context-points-at-route: ciRoute[c] == route && ciHandler[c] == 0 && arg0 == c
 //@   atcall Route.Handlers$elem: matched-flag: ciMatched[c] == (old(ciMatched)[c] || !route.use)
+// C02 at the point where the handler starts (as in next; the value array is the one the context handed to Route.match)
+//@   atcall Route.Handlers$elem: [C02] values-checked: len(route.Params) > 0 && !route.star && !rootShortcut(route, cdp(c, epoch)) ==>
+//@ ..    forall(s, 0, len(route.routeParser.segs), route.routeParser.segs[s].IsParam ==> valueOKat(route.routeParser.segs[s], last(CustomCtx.getValues)[pcount(route.routeParser.segs, s)], epochNow))
+//@   atcall Route.Handlers$elem: [C02] named-values-have-no-slash: len(route.Params) > 0 && !route.star && !rootShortcut(route, cdp(c, epoch)) ==>
+//@ ..    forall(s, 0, len(route.routeParser.segs), route.routeParser.segs[s].IsParam && !route.routeParser.segs[s].IsGreedy ==> noSlash(last(CustomCtx.getValues)[pcount(route.routeParser.segs, s)]))
+//@   atcall Route.Handlers$elem: [C02 C05] slots-from-this-path: len(route.Params) > 0 && !route.star && !rootShortcut(route, cdp(c, epoch)) ==>
+//@ ..    forall(k, 0, pcount(route.routeParser.segs, len(route.routeParser.segs)), fromPath(last(CustomCtx.getValues)[k], cpath(c, epoch)))
+//@   atcall Route.Handlers$elem: [C02] tiling: len(route.Params) > 0 && !route.star && !rootShortcut(route, cdp(c, epoch)) ==>
+//@ ..    forallI(key, tileDefK(key, route.routeParser.segs, last(CustomCtx.getValues), len(cdp(c, epoch)), len(route.routeParser.segs)) ==>
+//@ ..      forall(s, 0, len(route.routeParser.segs), tileOK(key, route.routeParser.segs, last(CustomCtx.getValues), cdp(c, epoch), cpath(c, epoch), s)) &&
+//@ ..      (route.use || toffK(key, len(route.routeParser.segs)) == len(cdp(c, epoch))))
+//@   atcall Route.Handlers$elem: [C02 C05] star-value: route.star && !rootShortcut(route, cdp(c, epoch)) ==> last(CustomCtx.getValues)[0] == ite(len(cpath(c, epoch)) > 1, cpath(c, epoch)[1:], "")
 //@   ensures no-match-is-an-error: !result0 ==> result1 != nil
 //@   ensures no-handler-no-match: !called(Route.Handlers$elem) ==> !result0
 //@   ensures [C08] error-is-returned-not-handled: !called((*App).ErrorHandler) && ehCalls == old(ehCalls)
@@ -346,6 +446,8 @@ package fiber
 //@   ensures in-table-range: -1 <= result && result < len(app.config.RequestMethods)
 //@   ensures index-of-the-method: result >= 0 ==> app.config.RequestMethods[result] == s
 //@   ensures minus-one-iff-not-configured: result == -1 ==> forall(k, 0, len(app.config.RequestMethods), app.config.RequestMethods[k] != s)
+// every registered route carries a well-formed parser (register establishes it for the route it hands over, addRoute keeps it)
+//@ macro wfStackOf(app, wm) = forall(wi, 0, len(app.stack[wm]), app.stack[wm][wi] != nil && wfParser(app.stack[wm][wi].routeParser))
 //@ func (*Hooks).executeOnRouteHooks assumed pure
 //@ macro lastOf(app, m) = old(app.stack[m])[old(len(app.stack[m])) - 1]
 //@ macro mergeable(app, m, route) = old(len(app.stack[m])) > 0 && old(lastOf(app, m).Path) == old(route.Path) && old(route.use) == old(lastOf(app, m).use) && !old(route.mount) && !old(lastOf(app, m).mount)
@@ -367,5 +469,7 @@ package fiber
 //@   ensures other-method-stacks-kept: forall(m, 0, len(app.stack), m != methodIdx(app, method, epoch) ==> app.stack[m] == old(app.stack[m]))
 //@   ensures at-most-one-position-used: app.routesCount <= old(app.routesCount) + 1
 //@   ensures entries-stay-non-nil: forall(i, 0, len(app.stack[methodIdx(app, method, epoch)]), app.stack[methodIdx(app, method, epoch)][i] != nil)
+//@   ensures earlier-entries-kept: forall(i, 0, old(len(app.stack[methodIdx(app, method, epoch)])), app.stack[methodIdx(app, method, epoch)][i] == old(app.stack[methodIdx(app, method, epoch)][i]))
+//@   ensures [C02] stack-parsers-stay-well-formed: old(wfStackOf(app, methodIdx(app, method, epoch))) && old(wfParser(route.routeParser)) ==> wfStackOf(app, methodIdx(app, method, epoch))
 //@   ensures merged-handlers-appended: mergeable(app, methodIdx(app, method, epoch), route) ==> len(lastOf(app, methodIdx(app, method, epoch)).Handlers) == old(len(lastOf(app, methodIdx(app, method, epoch)).Handlers)) + old(len(route.Handlers))
 //@   ensures merge-never-writes-shared-array: mergeable(app, methodIdx(app, method, epoch), route) && old(len(route.Handlers)) > 0 ==> !wasAllocated(arr(lastOf(app, methodIdx(app, method, epoch)).Handlers))
